@@ -413,6 +413,83 @@ def run_C06_filters(ctx):
         qf_e3(ctx, 600, 16)
 
 
+# Count-min sketch
+CMS_TYPES = {"cms8": 255, "cms16": 65535, "cms32": 2147483647, "cms64": 2147483647, "cmsz": 2147483647}
+
+
+def cms_e1(ctx, shapes):
+    for (w, d, elems, cmax, weights, maxops, fixf) in shapes:
+        c = {"W": w, "D": d, "Elems": "{" + ",".join("e%d" % i for i in range(elems)) + "}", "CMax": cmax,
+             "Weights": "{" + ",".join(str(x) for x in weights) + "}", "MaxOps": maxops, "FIXF": "TRUE" if fixf else "FALSE"}
+        ctx.e1.append(vlib.model_check("MC_CMS", c, ["Bounds", "Single", "Linear", "EmptyIff"], ctx.sub("e1")))
+
+
+def cms_e2(ctx, shapes, n_fs, pairs, types, reps=1):
+    for (w, d, maxops) in shapes:
+        wd = ctx.sub("cms_%d_%d" % (w, d))
+        fss = vlib.vh(["learn", "cms", "--w", str(w), "--d", str(d), "--n", str(n_fs), "--seed", str(ctx.seed)], wd)["fs"]
+        for fi, fs in enumerate(fss):
+            for tag in types:
+                cmax = CMS_TYPES[tag]
+                weights = "{1, 2, %d}" % (cmax - 1) if cmax < 100000 else "{1, 2, 1000}"
+                c = {"W": w, "D": d, "CMax": cmax, "FSCODE": sum((x % w) * (w ** i) for i, x in enumerate(fs)), "EMIT": "TRUE",
+                     "Weights": weights, "MaxOps": maxops}
+                gen, st = vlib.generate("Gen_CMS", c, wd, "gen_%s_%d.out" % (tag, fi))
+                pf, h, mm = [os.path.join(wd, "%s_%s_%d.ndjson" % (x, tag, fi)) for x in ("p", "hist", "m")]
+                stats = vlib.vh(["replay", tag, "--gen", gen, "--out", pf, "--hist", h, "--mout", mm, "--reps", str(reps), "--max-alt", "20",
+                                 "--pairs", str(pairs), "--pair-op", "merge", "--seed", str(ctx.seed)], wd)
+                os.remove(gen)
+                if stats.get("missing"):
+                    raise ToolError("replay could not reach %d emitted transitions" % stats["missing"])
+                ctx.e2_transitions += stats["transitions"] + stats["pairs"]
+                ctx.executed += stats["executed"] + stats["alt_executed"] + stats["pairs"]
+                ctx.drift += stats["drift"]
+                ctx.drift_notes += stats.get("first_drift", [])
+                ctx.add_tags(stats.get("tags"), stats.get("tagged_distinct"))
+                ctx.extra.setdefault("state_graphs", []).append({"structure": "CountMinSketch<%s>" % tag, "w": w, "d": d, "shift_vector": fs,
+                                                                 "spec_states": st["distinct"], "materialised_as_real_objects": stats["states"],
+                                                                 "merge_pairs": stats["pairs"]})
+                n, rej = vlib.adjudicate("P_CMS", pf, wd)
+                ctx.judged += n
+                add_rejects(ctx, rej, pf, tag, "P_CMS", hist=h)
+                if fi == 0 and tag == types[0]:
+                    sample_records(ctx, pf, 1, '"overflow"')
+                if stats["pairs"]:
+                    nm, drift = vlib.mvalidate("Trace_CMS", {"W": w, "D": d, "CMax": cmax}, mm, wd)
+                    ctx.mvalidated += nm
+                    ctx.drift += len(drift)
+
+
+def cms_e3(ctx, scenarios, types):
+    for tag in types:
+        w = ctx.sub(tag + "_e3")
+        scf = os.path.join(w, "scenarios.ndjson")
+        cmax = CMS_TYPES[tag]
+        vlib.vh(["drive", "cms", "--out", scf, "--seed", str(ctx.seed + len(tag)), "--scenarios", str(scenarios), "--cmax", str(cmax if cmax < 100000 else 0)], w)
+        p = os.path.join(w, "p.ndjson")
+        stats = vlib.vh(["scenario", tag, "--in", scf, "--out", p], w)
+        ctx.e3_calls += stats["calls"]
+        ctx.executed += stats["calls"]
+        n, rej = vlib.adjudicate("P_CMS", p, w)
+        ctx.judged += n
+        add_rejects(ctx, rej, p, tag, "P_CMS", scenarios=scf)
+        sample_records(ctx, p, 1, '"merge"')
+
+
+def run_cms(ctx):
+    alltypes = ["cms8", "cms16", "cms32", "cms64", "cmsz"]
+    if ctx.quick:
+        cms_e1(ctx, [(1, 1, 2, 6, [1, 2, 5], 4, False), (2, 1, 2, 6, [1, 2, 5], 4, False), (1, 2, 2, 6, [1, 2, 5], 4, False),
+                     (3, 2, 3, 6, [1, 2, 5], 3, True), (2, 3, 2, 6, [1, 2, 5], 4, True)])
+        cms_e2(ctx, [(3, 2, 3), (2, 3, 3)], n_fs=1, pairs=1500, types=alltypes)
+        cms_e3(ctx, 25, alltypes)
+    else:
+        cms_e1(ctx, [(1, 1, 3, 6, [1, 2, 5], 5, False), (2, 1, 3, 6, [1, 2, 5], 5, False), (1, 2, 3, 6, [1, 2, 5], 5, False),
+                     (3, 2, 3, 6, [1, 2, 5], 4, False), (2, 3, 3, 6, [1, 2, 5], 4, False), (2, 2, 3, 6, [1, 2, 5], 5, True)])
+        cms_e2(ctx, [(1, 1, 4), (3, 2, 4), (2, 3, 4), (4, 2, 3), (1, 3, 4)], n_fs=4, pairs=20000, types=alltypes)
+        cms_e3(ctx, 400, alltypes)
+
+
 def handle_hang(ctx, stats, records, tag, pspec, hist=None):
     for h in stats.get("hang", []):
         ctx.rejects.append({"tid": h.get("tid", 0), "clause": PROPS[ctx.pid].get("hang_clause", ctx.pid + ".total: a call did not return (hang)"),
@@ -444,6 +521,11 @@ PROPS = {
             "rule": "Bloom: E1 over every hasher (h1,h2,f) for the listed (m,k), E2 every transition over all (h1,h2) pairs for shift vectors of real hashers; "
                     "cuckoo as C14; quotient filter as C13; HashSet reference through E3 scenarios; non-trivial = tagged by a coverage predicate of the specs",
             "assumptions": CK_ASSUME},
+    "C02": {"run": run_cms, "level": "model_checking",
+            "rule": "E1: two sketches, every hasher (h1,h2,f), weights incl. overflow, merge/clear, bounded depth; E2: every transition of the "
+                    "single-sketch graph over all (h1,h2) pairs under shift vectors of real hashers on u8,u16,u32,u64,usize, merge over pairs of materialised states; "
+                    "non-trivial = tagged (overflow panic, rows disagree, collision in every row)",
+            "assumptions": ["TLC and the TLA+ P-spec P_CMS judge every executed call", "overflow of u32/u64/usize is not driven (TLC integers are 32-bit); u8 and u16 are"]},
     "C12": {"run": lambda ctx: (run_ck(ctx), run_C13(ctx)), "level": "model_checking", "rule": CK_RULE + "; quotient filter as C13", "assumptions": CK_ASSUME},
     "C13": {"run": run_C13, "level": "model_checking",
             "rule": "E1: every reachable state of the quotient-filter M-spec for the listed (q,r); E2: every emitted transition executed "
